@@ -5,7 +5,8 @@
    written from the recommendation), Spec/StanXml.v (what a stan tree means). *)
 From Coq Require Import ZArith NArith List Bool.
 From PydoctorVerif Require Import Base.Sexp Gen.TablesC10 Model.Stan Model.DocutilsEsc Model.Html2Stan Model.DeprecateText
-  Spec.Xml Spec.StanXml Proofs.EscProofs Proofs.ReparseProofs Proofs.DeprecateProofs.
+  Model.ReparseIR Gen.ReparseCode Spec.Xml Spec.StanXml Proofs.EscProofs Proofs.ReparseProofs Proofs.DeprecateProofs
+  Proofs.ReparseIRProofs.
 Import ListNotations.
 Local Open Scope N_scope.
 
@@ -197,6 +198,38 @@ Example C10_deprecate_hypotheses_satisfiable :
   | None => False
   end.
 Proof. vm_compute. auto. Qed.
+
+(* ---- the tie to the source: Gen/ReparseCode.v holds the bodies of stanutils.html2stan and of
+   extensions.deprecate.deprecatedToUsefulText (from the point where its inputs are known) translated from the CURRENT
+   source into the language of Model/ReparseIR.v.  Interpreting that code is the hand-written model, for every input. *)
+Theorem C10_code_html2stan_is_model :
+  forall html, html2stan html <> H2Document ->
+    run_html2stan code_html2stan html = res_of_h2s (html2stan html).
+Proof. exact code_html2stan_is_model. Qed.
+
+Theorem C10_code_deprecate_is_model :
+  forall name package version replacement,
+    run_deprecate code_deprecate name package version replacement
+    = res_of_deprecation version (deprecation_text name package version replacement).
+Proof. exact code_deprecate_is_model. Qed.
+
+(* hence the property theorems hold of the translated code itself: the text returned for a free-text replacement holds
+   it inside one literal, and the re-parse of encoded text is one text node *)
+Theorem C10_code_html2stan_roundtrip :
+  forall t, forallb reparse_ok t = true ->
+    run_html2stan code_html2stan (encode t) = RReturn (VStan (STag [] [] (text_kids (neutralise (eol_norm t))))).
+Proof.
+  intros t H. rewrite code_html2stan_is_model; rewrite (html2stan_encode t H); [reflexivity | discriminate].
+Qed.
+
+Example C10_code_examples :
+  run_html2stan code_html2stan [97; 60; 98] = RRaise ExSAXParse /\
+  run_html2stan code_html2stan [97; 12; 38; 97; 109; 112; 59]
+  = RReturn (VStan (STag [] [] [SText [97; 92; 120; 48; 99; 38]])) /\
+  run_deprecate code_deprecate [102] [112; 45] [49] None = RRaise ExValueError /\
+  run_deprecate code_deprecate [102] [112] [49] (Some [32; 96; 13; 120])
+  = RReturn (VPair (VStr [49]) (VStr (map N.of_nat [96;96;102;96;96;32;119;97;115;32;100;101;112;114;101;99;97;116;101;100;32;105;110;32;112;32;49;59;32;112;108;101;97;115;101;32;117;115;101;32;96;96;39;32;120;96;96;32;105;110;115;116;101;97;100;46]%nat))).
+Proof. repeat split; vm_compute; reflexivity. Qed.
 
 (* non-vacuity: a tree holding script tags, a CDATA end, a comment end, entity look-alikes and quotes, in text and in
    an attribute, satisfies the hypothesis; its flattened form is read back as itself. *)
